@@ -13,16 +13,16 @@ from harness import core, tlc
 from props import misc_c36 as tc
 
 INVS = ["TypeOK", "Identity", "RoundTrip", "PathIndependent", "OrderPreserved", "Neighbour"]
-QUICK = dict(Bases={"n1e9", "m0", "epoch", "p1e9", "y9000", "y9000c"}, Coarse={"y9000c"}, SubUs={"n1e9", "m0", "epoch", "p1e9"},
+QUICK = dict(Bases={"n1e9", "m0", "epoch", "p1e9", "y2106", "y9000", "y9000c"}, Coarse={"y9000c"}, SubUs={"n1e9", "m0", "epoch", "p1e9"},
              Offs={0, 1, 2}, Quarters={0, 1, 2, 3})
-THOROUGH = dict(Bases={"n1e9", "m0", "epoch", "p1e9", "y9000", "y9000c"}, Coarse={"y9000c"}, SubUs={"n1e9", "m0", "epoch", "p1e9"},
+THOROUGH = dict(Bases={"n1e9", "m0", "epoch", "p1e9", "y2106", "y9000", "y9000c"}, Coarse={"y9000c"}, SubUs={"n1e9", "m0", "epoch", "p1e9"},
                 Offs={0, 1, 2, 3, 4, 5}, Quarters={0, 1, 2, 3})
 
 
 def variants(scn, tier):
     h = len(json.dumps(scn, sort_keys=True)) + scn["v"]["k"] + 3 * scn["w"]["k"]
     n = 4 if tier == "quick" else 12
-    return [dict(stride_i=(h + i) % 4, zone_i=(h + i // 2) % 3, holder=tc.HOLDERS[(h + i) % len(tc.HOLDERS)]) for i in range(n)]
+    return [dict(stride_i=(h * 7 + i * 5) % 48, zone_i=(h + i // 2) % 3, holder=tc.HOLDERS[(h + i) % len(tc.HOLDERS)]) for i in range(n)]
 
 
 def _job(args):
@@ -38,7 +38,7 @@ def run(tier: str) -> int:
     ck = core.Check("C36", tier)
     consts = QUICK if tier == "quick" else THOROUGH
     ck.rule = ("source kind x target kind (3 x 3) x ordered pairs of tagged values over magnitude classes (-1e9 s, just below zero, epoch, "
-               "+1e9 s, year 9000 on a float-resolvable grid, year 9000 at microsecond grain) x offsets x quarter-microsecond positions "
+               "+1e9 s, 2^32 s, year 9000 on a float-resolvable grid, year 9000 at microsecond grain) x offsets x quarter-microsecond positions "
                "(floats only), enumerated by TLC on TimeConv.tla; each made concrete under several strides (1 us, just under / over a second, "
                "a day), time zones of the datetime (UTC, +05:30, -08:00) and holders of the classmethods; non-trivial = source and target "
                "kinds differ")
